@@ -34,6 +34,6 @@ contract("_Source.consume_joined_string", source=M + "_Source.consume_joined_str
          raises={"ValueError": {"ensures": ["self.offset == old(self.offset)"]}})
 
 from bounded import c08_corpus as _b8
-bounded_check(name="c08-corpus", fn=_b8.run_case, domain=_b8.domain, exhaustive=True,
+bounded_check(name="c08-corpus", props=["C08"], fn=_b8.run_case, domain=_b8.domain, exhaustive=True,
               label="B3: fixed corpus = every module of rope (working tree) and ropetest, 40 (thorough 120) stdlib modules, 46 one-construct snippets: annotation succeeds, "
                     "write_ast == source, regions nested, region text == written node, expression regions cover the interpreter's span and re-parse to the same node")
